@@ -122,6 +122,14 @@ mut("refactor-complete-if-let", CUS, "        match close_state_signature.verify
 mut("refactor-verify-opening-sub", PED, "        msg.commit(pedersen_params, bf) == *self\n", "        bool::from((msg.commit(pedersen_params, bf).0 - self.0).is_identity())\n", ["c09", "c05", "c11"])
 mut("refactor-nonce-new-do-while", NON, "        loop {\n            if let Ok(n) = Nonce::try_from(UncheckedNonce(Scalar::random(&mut *rng))) {\n                return n;\n            }\n        }", "        let mut s = Scalar::random(&mut *rng);\n        while s == CLOSE_SCALAR {\n            s = Scalar::random(&mut *rng);\n        }\n        Self(s)", ["c18", "c14", "c20"])
 
+SER = "zkchannels-crypto/src/serde.rs"
+mut("refactor-g1-decoder-unchecked-plus-torsion-check", SER, "        let maybe_g1: Option<G1Affine> =\n            G1Affine::from_compressed(&serde_big_array::BigArray::deserialize(deserializer)?)\n                .into();",
+    "        let maybe_g1: Option<G1Affine> = Option::<G1Affine>::from(G1Affine::from_compressed_unchecked(\n            &serde_big_array::BigArray::deserialize(deserializer)?,\n        ))\n        .filter(|e| bool::from(e.is_on_curve()) && bool::from(e.is_torsion_free()));", ["c15", "c08", "c11", "c02", "c01"])
+mut("refactor-ps-verify-correct-small-entry-ladder", PS, "                .map(|(yi, mi)| yi * mi)\n                .sum::<G2Projective>();",
+    "                .map(|(yi, mi)| {\n                    let b = mi.to_bytes();\n                    let mut w = [0u8; 8];\n                    w.copy_from_slice(&b[..8]);\n                    let small = u64::from_le_bytes(w);\n                    if Scalar::from(small) == *mi {\n                        let mut acc = G2Projective::identity();\n                        for i in (0..64).rev() {\n                            acc = acc.double();\n                            if (small >> i) & 1 == 1 {\n                                acc += yi;\n                            }\n                        }\n                        acc\n                    } else {\n                        yi * mi\n                    }\n                })\n                .sum::<G2Projective>();", ["c07", "c03", "c08"])
+mut("refactor-pedersen-new-in-place-fill", PED, "        let gs = iter::repeat_with(|| random_non_identity(&mut *rng))\n            .take(N)\n            .collect::<ArrayVec<_, N>>()\n            .into_inner()\n            .expect(\"length mismatch impossible\");",
+    "        let mut gs = [h; N];\n        for g in gs.iter_mut() {\n            *g = random_non_identity(&mut *rng);\n        }", ["c19", "c09", "c05"])
+
 
 def sh(cmd, cwd=None, timeout=3600):
     p = subprocess.run(cmd, shell=True, cwd=cwd, stdout=subprocess.PIPE, stderr=subprocess.STDOUT, timeout=timeout, env=ENV)
